@@ -82,13 +82,14 @@ impl RxCtrState {
         // in either direction. Encrypted only allows in forward direction
         else if is_forward {
             self.max_ctr = msg_ctr;
-            if udiff < MSG_RX_STATE_BITMAP_LEN {
-                // The previous max_ctr is now the actual counter
-                self.ctr_bitmap <<= udiff;
-                self.insert(udiff - 1);
+            // Slide the window forward by `udiff`: the previous max_ctr becomes bit `udiff - 1`,
+            // whatever falls off the window is forgotten, and the counters in the gap - which
+            // were never received - stay unmarked so that they are still accepted once.
+            self.ctr_bitmap = if udiff <= MSG_RX_STATE_BITMAP_LEN {
+                (((self.ctr_bitmap as u32) << udiff) | (1 << (udiff - 1))) as u16
             } else {
-                self.ctr_bitmap = 0xffff;
-            }
+                0
+            };
             true
         } else if !is_encrypted {
             // This is the case where the peer possibly rebooted and chose a different
